@@ -7,7 +7,8 @@
 (*   [p |-> "val", o |-> rank under cmp, f |-> rank under case folding]    *)
 (*   [p |-> "none"] (the attribute is None) or [p |-> "missing"].          *)
 (* A sort specification is a sequence of [a |-> index of the key,          *)
-(*   fn |-> "" (no function: plain key sort) | "cmp" | "nocase",           *)
+(*   fn |-> "" (no function: plain key sort) | "cmp" | "nocase" | "locale" *)
+(*          | "locale_nocase" | "user" (a function from the namespace),    *)
 (*   dir |-> 1 | -1].  a = 0 sorts by the element itself (sort="").        *)
 (*                                                                         *)
 (* Actions: Decorate (the (key, client) list), Insert (one element of the  *)
@@ -30,13 +31,17 @@ Present(k) == k.p = "val"
 \* the decorated key of one sort field: None / missing -> the _Smallest placeholder
 KeyOf(e, sp) == IF sp.a = 0 THEN e.it ELSE e.k[sp.a]
 
+\* the rank of a present key under a comparison function: cmp and the locale functions (C locale) order by value, the
+\* nocase functions by the case-folded value, a function found in the namespace ("user") by whatever order it defines
+RankOf(x, fn) == IF fn \in {"nocase", "locale_nocase"} THEN x.f ELSE IF fn = "user" THEN x.u ELSE x.o
+
 \* three-way comparison of two keys under one sort field, as SortBy does with cmp / nocase:
 \* the placeholder compares "less" than anything, including another placeholder
 Cmp3(x, y, fn) ==
     IF ~Present(x) THEN -1
     ELSE IF ~Present(y) THEN 1
-    ELSE LET a == IF fn = "nocase" THEN x.f ELSE x.o
-             b == IF fn = "nocase" THEN y.f ELSE y.o
+    ELSE LET a == RankOf(x, fn)
+             b == RankOf(y, fn)
          IN IF a < b THEN -1 ELSE IF a > b THEN 1 ELSE 0
 
 RECURSIVE CmpSpec(_, _, _, _)
